@@ -148,6 +148,34 @@ func (c *Config) Atoms(thorough bool) (full, mid, core []atoms.N) {
 			}
 		}
 	}
+	// codes shared by definitions of different vendors and types: each identity with its own type
+	for _, d := range a.Collide {
+		vals := atoms.Values(d.K, thorough)
+		for i, v := range vals {
+			if i >= 3 {
+				break
+			}
+			n := atoms.N{Code: d.Code, Flags: mflag(d.Must), Vendor: d.Vendor, V: v}
+			full = append(full, n)
+			mid = append(mid, n)
+			if i == 1 {
+				core = append(core, n)
+			}
+		}
+	}
+	// a code the dictionary defines, carried with a vendor id it does not define: opaque data
+	if d, ok := a.Plain[atoms.KU32]; ok {
+		for _, l := range []int{0, 4, 5} {
+			n := atoms.N{Code: d.Code, Flags: 0x80, Vendor: 424242, V: atoms.Val{K: atoms.KUnknown, S: []byte{9, 8, 7, 6, 5}[:l]}}
+			full = append(full, n)
+			mid = append(mid, n)
+		}
+	}
+	// vendor id given without the V flag: the constructor adds the flag
+	if d, ok := a.Vend[atoms.KUTF8]; ok {
+		full = append(full, atoms.N{Code: d.Code, Flags: 0x40, Vendor: d.Vendor, V: atoms.Val{K: atoms.KUTF8, S: []byte("abc")}})
+	}
+	full = append(full, atoms.N{Code: a.Undef[1], Flags: 0x40, Vendor: 4242, V: atoms.Val{K: atoms.KUnknown, S: []byte{1, 2, 3}}})
 	// undefined codes, with and without V flag / vendor id
 	for i, v := range atoms.Values(atoms.KUnknown, thorough) {
 		n := atoms.N{Code: a.Undef[0], Flags: 0, V: v}
